@@ -15,10 +15,11 @@ from .. import e2
 from ..codec import src, unsrc
 from ..common import safe_repr, shard_items, verdict
 from ..runner import Acc, parallel
-from ..subst import try_subst
+from .. import model as M
+from ..subst import partials, try_subst, with_placeholders
 from ..terms import E, depth, show, try_build
 from ..universe import universe
-from ..values import value_universe
+from ..values import dedup, value_universe
 
 MAXDEPTH = {"quick": 2, "thorough": 3}
 VLIM = {"quick": 40, "thorough": 120}
@@ -147,7 +148,12 @@ def judge(t, tw, s, sw, vals, rng, acc=None):
             if o[0] == "ok" and verdict(sw, o[1]) != verdict(s, o[1]):
                 found.append(("C16|generated-value-conformance-differs", src(o[1])))
                 break
-    for v in vals[: (12 if len(vals) > 12 else len(vals))]:
+    # substitution values: plain ones, partial dicts, and values carrying the `...` / Nil
+    # placeholders at every position (substitution gives them a meaning of their own)
+    svals = list(vals[:12])
+    for w in M.witnesses(t)[:2]:
+        svals += partials(w)[:8] + with_placeholders(w)[:60]
+    for v in dedup(svals):
         if acc:
             acc.count("substitutions")
         ra, rb = try_subst(s, v), try_subst(sw, v)
